@@ -8,6 +8,8 @@ obtained by *textual* substitution ([nP..] -> "(" body ")", [UB1] -> [932], [UB2
 
 import asyncio
 
+import os
+
 from hypothesis import strategies as st
 
 from vlib import evalhelp, gen, ref, sut
@@ -17,7 +19,7 @@ from vlib.core import Stage, fail
 ID = "C10"
 MANIFEST = {
     "category": "exploration",
-    "text": "Generated-input search: package tables (1-5 package keys mapped to well-formed expressions that may themselves contain time conditions and packages, or mapped to nothing / absent) x condition and AHB expressions using those packages repeatedly, adjacently, with and without repeatability, plus time conditions. The tree from parse_expression_including_unresolved_subexpressions(resolve_packages=True, replace_time_conditions=True) - and from expand_packages / expand_time_conditions applied separately - must equal the tree of the textually substituted string parsed without resolution (exact equality; equality modulo regrouping inside one-operator runs is accepted and counted); a package without expression must abort with NotImplementedError; no coroutine may be left in the tree; exactly one level is expanded. Stage many-packages (enumerated): 25-32 (thorough: 12-120) package occurrences with a suspending resolver, resolved three times on new event loops, compared with the tree of the substituted text. Stage no-packages: expressions without any package resolved with resolve_packages=True / handed to expand_packages while no, another version's, or a matching package resolver is registered; the tree must equal the plain parse.",
+    "text": "Generated-input search: package tables (1-5 package keys mapped to well-formed expressions that may themselves contain time conditions and packages, or mapped to nothing / absent) x condition and AHB expressions using those packages repeatedly, adjacently, with and without repeatability, plus time conditions. The tree from parse_expression_including_unresolved_subexpressions(resolve_packages=True, replace_time_conditions=True) - and from expand_packages / expand_time_conditions applied separately - must equal the tree of the textually substituted string parsed without resolution (exact equality; equality modulo regrouping inside one-operator runs is accepted and counted); a package without expression must abort with NotImplementedError; no coroutine may be left in the tree; exactly one level is expanded. Stage many-packages (enumerated): 25-32 (thorough: 12-120) package occurrences with a suspending resolver, resolved three times on new event loops, compared with the tree of the substituted text. Stage no-packages: expressions without any package resolved with resolve_packages=True / handed to expand_packages while no, another version's, or a matching package resolver is registered; the tree must equal the plain parse. Two more resolver kinds: the shipped JsonFilePackageResolver fed with the dict layout and with the list layout of the package table (a package without expression written as null).",
     "note": "Trusted: ref.subst_packages / subst_time (regular-expression substitution written from the statement), the plain parsers as judged by C01/C02. Bounded: <= 8/14 atoms per expression, <= 5 packages. Process configuration by shard (vlib/sut.py; recorded in replay files): plain / parse caches preheated beyond their size / warnings attributed to ahbicht raised as errors / logging fully enabled with every record rendered; one event loop per process or a new one per call; five process time zones; the hash seed is the shard number; namesakes of ahbicht's marshmallow schema classes are registered.",
     "technique": "property-based testing with a differential oracle (resolve(s) vs parse(textual substitution of s))",
 }
@@ -113,6 +115,30 @@ def check(case):
             cer.packages = None  # no package table at all (the class default) - "a package table that maps to nothing"
         holder.set(cer)
         sut.setup_cer_based(holder)
+    elif case.get("resolver") in ("jsonfile-dict", "jsonfile-list"):
+        # the shipped JsonFilePackageResolver, fed with a file of one of its two documented layouts; a package without
+        # expression is written as null
+        import json
+        import tempfile
+
+        from ahbicht.expressions.package_expansion import JsonFilePackageResolver
+
+        if case["resolver"] == "jsonfile-dict":
+            body = dict(table)
+        else:
+            body = [{"edifact_format": str(sut.FMT.value), "package_key": k, "package_expression": v} for k, v in table.items()]
+        with tempfile.NamedTemporaryFile("w", suffix=".json", delete=False, encoding="utf-8") as handle:
+            json.dump(body, handle)
+        try:
+            from pathlib import Path
+
+            built = sut.call(JsonFilePackageResolver, sut.FMT, sut.VER, Path(handle.name))
+        finally:
+            os.unlink(handle.name)
+        if not built.ok:
+            fail("resolver-construction", f"JsonFilePackageResolver could not be built from the {case['resolver'][9:]} layout of the "
+                 f"package table {table!r}: {built!r}")  # fmt: skip
+        sut.configure([built.value])
     elif case.get("resolver") == "formatless":
         # evaluators as ahbicht's own factory builds them when no format is given, behind a single-set provider
         sut.setup_hardcoded(sut.make_cer(packages={k: v for k, v in table.items() if v is not None}), formatless=True)
@@ -251,7 +277,7 @@ def strategy(tier):
             text = gen.render(draw, ast)
         used = sorted({a[1] for p in parts if p[1] is not None for a in ref.atoms_of(p[1]) if a[0] == "pkg"})
         return {"table": table, "parts": parts, "s": text, "is_ahb": is_ahb, "used": used,
-                "resolver": draw(st.sampled_from(["dict", "dict", "cer", "formatless"]))}
+                "resolver": draw(st.sampled_from(["dict", "dict", "cer", "formatless", "jsonfile-dict", "jsonfile-list"]))}
 
     return build()
 
